@@ -66,6 +66,33 @@ func (g *Gamma) Scale(k int) int    { return g.X * k } // has an argument: not c
 func (g Gamma) Nothing()            {}
 func (g Gamma) Pair() (int, string) { return g.X, "p" }
 
+// shapes for promoted-field resolution: shallowest wins, equal depth is ambiguous (no such member)
+type Stamp struct {
+	ID string
+	At int
+}
+type Tracking struct {
+	Stamp
+	Source string
+}
+type Record struct {
+	ID   string
+	Name string
+}
+type Author struct {
+	Name string
+	Mail string
+}
+type Doc struct {
+	Tracking
+	Record
+	Author
+	Title string
+	Lang  string
+	Pages int
+	Draft bool
+}
+
 type OnlyMethods struct{ v int }
 
 func (o OnlyMethods) Value() int   { return o.v }
@@ -89,11 +116,15 @@ func handObjects() []interface{} {
 		map[string]int{"A": 11, "B": 22, "ID": 0},
 		map[string][]int{"A": {1, 2}},
 		map[string]*Alpha{"A": {A: 7, B: "seven"}},
+		PtrEmbed{Base: nil, Extra: "nil-embedded"}, &PtrEmbed{Base: nil, Extra: "nil-embedded-ptr"},
+		Doc{Tracking: Tracking{Stamp: Stamp{ID: "trk", At: 5}, Source: "src"}, Record: Record{ID: "rec", Name: "rname"}, Author: Author{Name: "aname", Mail: "m@x"}, Title: "T", Lang: "en", Pages: 3},
+		&Doc{Tracking: Tracking{Stamp: Stamp{ID: "trk2", At: 6}}, Record: Record{ID: "rec2"}, Lang: "de", Draft: true},
 	}
 }
 
 var c20Names = []string{"A", "B", "C", "X", "Y", "ID", "Title", "Level", "Name", "Extra", "hid", "v",
-	"Describe", "Bump", "Hello", "Sum", "Scale", "Nothing", "Pair", "Value", "Double", "Base", "Mid", "name", "nil", "zzz", "F0", "F1", "F2", "F3"}
+	"Describe", "Bump", "Hello", "Sum", "Scale", "Nothing", "Pair", "Value", "Double", "Base", "Mid", "name", "nil", "zzz", "F0", "F1", "F2", "F3",
+	"At", "Source", "Mail", "Lang", "Pages", "Draft", "Stamp", "Tracking", "Record", "Author"}
 
 var genFieldNames = []string{"A", "B", "C", "X", "F0", "F1", "F2", "F3"}
 var genFieldTypes = []reflect.Type{reflect.TypeOf(0), reflect.TypeOf(""), reflect.TypeOf(true), reflect.TypeOf(1.5), reflect.TypeOf([]int(nil))}
@@ -284,7 +315,7 @@ func (propC20) Gen(seed uint64, ex map[string]bool) interface{} {
 		var seen []c20Op
 		phases := r.Range(2, 5)
 		for ph := 0; ph < phases; ph++ {
-			switch r.N(3) {
+			switch r.N(5) {
 			case 0: // ordinary lookups
 				n := r.Range(3, 15)
 				for i := 0; i < n; i++ {
@@ -300,6 +331,20 @@ func (propC20) Gen(seed uint64, ex map[string]bool) interface{} {
 				start := 200 + r.N(5000)
 				for i := 0; i < n; i++ {
 					ops = append(ops, c20Op{Obj: 100 + start + i, Name: pick(r, genFieldNames)})
+				}
+			case 3: // many different names on one object, then on a sibling value of the same type
+				o1 := pickObj()
+				n := r.Range(5, 9)
+				for i := 0; i < n; i++ {
+					op := c20Op{Obj: o1, Name: pick(r, c20Names)}
+					ops = append(ops, op)
+					seen = append(seen, op)
+				}
+				if o1 < 100 {
+					sib := o1 ^ 1 // hand-written objects come in value/pointer or nil/non-nil pairs
+					for i := 0; i < 4; i++ {
+						ops = append(ops, c20Op{Obj: sib, Name: pick(r, c20Names)})
+					}
 				}
 			default: // re-lookup earlier pairs
 				for i := 0; i < len(seen) && i < 12; i++ {
